@@ -273,3 +273,23 @@ def make_index_remove(c):
     c.loop(1, head="for s in ambiguous", inv=["0 <= __k1 <= nkeys(ambiguous)", "removed_upto(index, old(index), ambiguous, __k1)"])
     c.ensures(exactly_the_ambiguous_strings_are_removed="without_ambiguous(index, old(index), ambiguous)")
     c.mutant("del index[s]", "pass")
+
+
+@contract("adapters.py", "AdapterIndex._accept", props=["C08"])
+def index_accept(c):
+    """Only anchored adapters of the right end, without wildcards on either side and with at most three errors, go into an
+    index (anything else is searched one by one)."""
+    c.types(cls=api.ConstT(ClsV("AdapterIndex")), adapter=ObjT("SingleAdapter", sequence=Str, max_error_rate=Real, read_wildcards=Bool,
+                                                                 adapter_wildcards=Bool, __cls__=Int), prefix=Bool)
+    def sp(cx):
+        from pyvc import verify
+        w = verify.world()
+        cx.spec["is_a"] = lambda o, name: z3.Or(*[o.fields["__cls__"] == w.cls_tag(s_) for s_ in w.subclasses(name.v)])
+    c.spec(sp)
+    K = "int(len(adapter.sequence) * adapter.max_error_rate)"
+    c.requires(rate_not_negative="adapter.max_error_rate >= 0")
+    c.raises("ValueError", when=f"(prefix and not is_a(adapter, 'PrefixAdapter')) or (not prefix and not is_a(adapter, 'SuffixAdapter')) or "
+                                f"adapter.read_wildcards or adapter.adapter_wildcards or {K} > 3")
+    c.ensures(accepted="True")
+    c.mutant("if k > 3:", "if k > 4:")
+    c.mutant("if adapter.read_wildcards:", "if False:")
